@@ -545,14 +545,95 @@ def _whole_call(st: ast.stmt) -> tuple[ast.Call | None, str]:
     return None, ''
 
 
+ALIASES_FILE = os.path.join(os.path.dirname(os.path.abspath(__file__)), 'known_aliases.txt')
+
+
+def constant_aliases(fn: ast.AST) -> dict[str, ast.expr]:
+    """Locals of `fn` that are bound exactly once, by a plain assignment, to a named constant: a dotted chain
+    (`Capability.CODE.EXTENDED_MESSAGE`, `Message.HEADER_LEN`) whose root is not a local of the function and whose last
+    part is upper-case.  Reading such a local is reading the constant."""
+    a = fn.args  # type: ignore[attr-defined]
+    params = {x.arg for x in a.posonlyargs + a.args + a.kwonlyargs} | ({a.vararg.arg} if a.vararg else set()) | ({a.kwarg.arg} if a.kwarg else set())
+    stores: dict[str, int] = {}
+    cands: dict[str, ast.expr] = {}
+    nested_bound: set[str] = set()
+    for n in ast.walk(fn):
+        if n is not fn and isinstance(n, (ast.FunctionDef, ast.AsyncFunctionDef, ast.Lambda)):
+            na = n.args
+            nested_bound |= {x.arg for x in na.posonlyargs + na.args + na.kwonlyargs}
+        if isinstance(n, (ast.Global, ast.Nonlocal)):
+            nested_bound |= set(n.names)
+        if isinstance(n, ast.Name) and isinstance(n.ctx, (ast.Store, ast.Del)):
+            stores[n.id] = stores.get(n.id, 0) + 1
+    for st in fn.body:  # type: ignore[attr-defined]
+        tg = st.targets[0] if isinstance(st, ast.Assign) and len(st.targets) == 1 else st.target if isinstance(st, ast.AnnAssign) else None
+        v = getattr(st, 'value', None)
+        if isinstance(tg, ast.Name) and isinstance(v, ast.Attribute) and _dotted_chain(v) and v.attr.isupper():
+            cands[tg.id] = v
+    local = set(stores) | params
+    out = {}
+    for nm, v in cands.items():
+        root = v
+        while isinstance(root, ast.Attribute):
+            root = root.value
+        if stores.get(nm) == 1 and nm not in params and nm not in nested_bound and root.id not in local:  # type: ignore[attr-defined]
+            out[nm] = v
+    return out
+
+
+def load_known_aliases() -> set[str]:
+    if not os.path.exists(ALIASES_FILE):
+        return set()
+    with open(ALIASES_FILE) as fh:
+        return {l.strip() for l in fh if l.strip() and not l.startswith('#')}
+
+
+class _AliasSubst(ast.NodeTransformer):
+    def __init__(self, mapping: dict[str, ast.expr]) -> None:
+        self.mapping = mapping
+        self.n = 0
+
+    def visit_Name(self, n: ast.Name) -> ast.AST:
+        if isinstance(n.ctx, ast.Load) and n.id in self.mapping:
+            new = copy.deepcopy(self.mapping[n.id])
+            for x in ast.walk(new):
+                if hasattr(x, 'lineno'):
+                    if getattr(x, '_orig_pos', None) is None:
+                        x._orig_pos = (x.lineno, x.col_offset, getattr(x, 'end_lineno', None), getattr(x, 'end_col_offset', None))  # type: ignore[attr-defined]
+                    x.lineno, x.col_offset = n.lineno, n.col_offset  # type: ignore[attr-defined]
+                    x.end_lineno, x.end_col_offset = getattr(n, 'end_lineno', n.lineno), getattr(n, 'end_col_offset', n.col_offset)  # type: ignore[attr-defined]
+            self.n += 1
+            return new
+        return n
+
+
+def propagate_aliases(model) -> list[str]:  # noqa: ANN001
+    """a local that merely names a constant, and did not exist on the confirmed tree (sa/known_aliases.txt), is replaced
+    by the constant wherever it is read: hoisting `Capability.CODE.X` into a local changes nothing a rule should see"""
+    known = load_known_aliases()
+    done = []
+    for q, fi in list(model.funcs.items()):
+        if isinstance(fi.node, ast.Lambda):
+            continue
+        al = {nm: v for nm, v in constant_aliases(fi.node).items() if '%s\t%s' % (q.split('#')[0], nm) not in known}
+        if not al:
+            continue
+        sub = _AliasSubst(al)
+        fi.node.body = [sub.visit(st) for st in fi.node.body]
+        if sub.n:
+            done.append('%s: %s' % (q, ', '.join('%s = %s' % (k, ast.unparse(v)) for k, v in sorted(al.items()))))
+    return done
+
+
 def apply(model) -> dict:  # noqa: ANN001
     """expand unknown helpers in every function of the model; returns a report for the evidence"""
     known = load_known()
     if known is None:
         return {'enabled': False, 'reason': 'sa/known_funcs.txt missing'}
     inl = Inliner(model, known)
+    aliases = propagate_aliases(model)
     if not inl.unknown:
-        return {'enabled': True, 'unknown_functions': 0, 'inlined': []}
+        return {'enabled': True, 'unknown_functions': 0, 'inlined': [], 'constant_aliases': aliases}
     for q, fi in list(model.funcs.items()):
         try:
             inl.expand(fi)
@@ -578,4 +659,4 @@ def apply(model) -> dict:  # noqa: ANN001
                 u.cls.methods.pop(nm, None)
             else:
                 u.module.functions.pop(nm, None)
-    return {'enabled': True, 'unknown_functions': len(inl.unknown), 'unknown': sorted(inl.unknown)[:40], 'inlined': inl.inlined[:80], 'not_inlined': inl.skipped[:40], 'removed': removed}
+    return {'enabled': True, 'unknown_functions': len(inl.unknown), 'unknown': sorted(inl.unknown)[:40], 'inlined': inl.inlined[:80], 'not_inlined': inl.skipped[:40], 'removed': removed, 'constant_aliases': aliases + propagate_aliases(model)}
